@@ -204,6 +204,35 @@ func RunC20(d *Driver) *Report {
 			}
 		}
 	}
+	// the marked letters are a SET: every order in which two or three of the letters a..e are written gives the verdict
+	// of the set (in particular a letter without a choice, wherever it stands)
+	for _, outs := range [][]string{{"hi", "ho", "ho"}, {"hi", "hi", "ho"}, {"ho", "hi"}, {"hi", "ho", "hi", "ho"}} {
+		for _, ans := range c20Orders() {
+			fmo, mdo := c20Question("multiple-choice", strings.Join(ans, ", "), outs)
+			q, err := learn.NewQuestionModel("course/unit/exercise/q.md", learn.WithRawMD(fmo, mdo))
+			r.Count("verify-order:"+strings.Join(ans, "")+fmt.Sprint(outs), true)
+			if err != nil {
+				continue
+			}
+			marked := map[int]bool{}
+			for _, a := range ans {
+				marked[int(a[0]-'a')] = true
+			}
+			spec := "ok"
+			for i := 0; i < 5; i++ {
+				if marked[i] != (i < len(outs) && outs[i] == "hi") {
+					spec = "wrong"
+				}
+			}
+			real := "ok"
+			if q.Verify() != nil {
+				real = "wrong"
+			}
+			if real != spec {
+				r.Violation(Case{Stream: "verify-order", Input: fmo + "---\n" + mdo, Real: real, Spec: "accepted exactly when the marked choices are precisely the matching ones, in whatever order they are written: " + spec})
+			}
+		}
+	}
 	// seal / unseal through the question front matter: state after each operation
 	fm, md := c20Question("single-choice", "a", []string{"hi", "ho"})
 	q, err := learn.NewQuestionModel("course/unit/exercise/q.md", learn.WithRawMD(fm, md), learn.WithPrivateKey(keys[0].Private))
@@ -342,4 +371,24 @@ func c20ProgramChoices(r *Report) int {
 		os.RemoveAll(base)
 	}
 	return n
+}
+
+// c20Orders: every sequence of two or three different letters of a..e
+func c20Orders() [][]string {
+	var out [][]string
+	l := "abcde"
+	for i := 0; i < 5; i++ {
+		for j := 0; j < 5; j++ {
+			if j == i {
+				continue
+			}
+			out = append(out, []string{string(l[i]), string(l[j])})
+			for k := 0; k < 5; k++ {
+				if k != i && k != j {
+					out = append(out, []string{string(l[i]), string(l[j]), string(l[k])})
+				}
+			}
+		}
+	}
+	return out
 }
